@@ -567,14 +567,16 @@ pub fn run(ctx: &mut Ctx) {
     super::replay_corpus(ctx, replay);
     ctx.run_suite(&PrefixSuite);
     ctx.run_suite(&SocketSuite);
+    ctx.run_suite(&super::c12quic::QuicRandomSuite);
     ctx.assume("hellos that span several records may be reported as absent (the statement allows absent, never another value)");
-    ctx.assume("QUIC (client random of the completed handshake) is not covered by this check");
+    ctx.assume("QUIC: the client random is learnt from the quiche client's TLS key log and observed through the verdict of value/mask rules over its first two bytes");
 }
 
 pub fn replay(ctx: &mut Ctx, suite: &str, case: &Value) -> bool {
     match suite {
         "extraction-prefixes" => ctx.replay_suite(&PrefixSuite, case),
         "listener-on-socket" => ctx.replay_suite(&SocketSuite, case),
+        "quic-client-random" => ctx.replay_suite(&super::c12quic::QuicRandomSuite, case),
         _ => false,
     }
 }
